@@ -159,7 +159,8 @@ def compile_template(sylt, tpl, concrete=None, extra_files=None):
     src, holes = A.render(tpl.text, concrete)
     extra_files = extra_files or tpl.extra_files
     files = {"main.sy": src}
-    if extra_files: files.update(extra_files)
+    if extra_files:
+        for rel, text in extra_files.items(): files[rel] = A.render(text, concrete, holes)[0]
     rc, lua, out = common.compile_sy(sylt, files)
     return src, holes, rc, lua, out
 
